@@ -2,7 +2,7 @@
 
 Translator-backed: `go/cmd/extract15` regenerates `lean/Sentinel/Gen/Access.lean` (the access table) from the Go
 source of $VERIF_REPO on every run; `Sentinel.Props.C15` re-proves `table_disciplined`, `atomics_never_mixed`,
-`lock_order_acyclic`, `slots_single_snapshot`, `extractor_understood_everything` on it by kernel evaluation, next to
+`lock_order_acyclic`, `slots_single_snapshot`, `inserts_rechecked`, `extractor_understood_everything` on it by kernel evaluation, next to
 the general theorems (`discipline_implies_exclusion`, `switch_is_atomic`, ...).  The dynamic cross-check is the stress
 program `go/cmd/race15` built with `-race -tags verif`: every report of the race detector has to be predicted by a
 table pair that the static check flags (and that a listed known finding excuses), and the atomic-switch oracles must
@@ -15,7 +15,6 @@ import subprocess
 import time
 
 from vlib import core
-from vlib import std as _std
 
 PROP = "C15"
 SPEC_MODE = "oracle"
@@ -113,6 +112,7 @@ import Sentinel.Gen.Access
 open Sentinel.LockModel Sentinel.Gen.Access Sentinel.C15
 def exR := resolve classNames knownReads
 def exP := resolve atomicFields knownPlainReads
+def exI := resolve classNames knownInserts
 #eval do
   IO.println s!"DISCIPLINED {disciplinedB exR accesses}"
   for (a, b) in badPairs exR accesses do IO.println s!"BAD {a.id} {b.id}"
@@ -125,8 +125,12 @@ def exP := resolve atomicFields knownPlainReads
   for s in slotShapes do
     if !shapeOkB knownSlots s then IO.println s!"BADSHAPE {s.id}"
     if !shapeOkB [] s then IO.println s!"RAWSHAPE {s.id}"
+  for r in inserts do
+    if !insertOkB accesses exI r then IO.println s!"BADINSERT {r.id}"
+    if !insertOkB accesses [] r then IO.println s!"RAWINSERT {r.id}"
   for u in unknowns do
     if u.phase == Phase.live then IO.println s!"BADUNKNOWN {u.id}"
+  IO.println s!"KNOWNINSERTS {knownInserts}"
   IO.println s!"KNOWNREADS {knownReads}"
   IO.println s!"KNOWNPLAIN {knownPlainReads}"
   IO.println s!"KNOWNSLOTS {knownSlots}"
@@ -145,7 +149,8 @@ def lean_report():
     rc, so, se = core.sh(["lake", "env", "lean", src], cwd=core.LEAN, timeout=1800)
     if rc != 0 or "REPORT-END" not in so:
         raise RuntimeError("report script failed:\n" + (so + se)[-3000:])
-    rep = {"BAD": [], "RAW": [], "BADPLAIN": [], "RAWPLAIN": [], "BADEDGE": [], "BADSHAPE": [], "RAWSHAPE": [], "BADUNKNOWN": [], "text": so}
+    rep = {"BAD": [], "RAW": [], "BADPLAIN": [], "RAWPLAIN": [], "BADEDGE": [], "BADSHAPE": [], "RAWSHAPE": [], "BADUNKNOWN": [],
+           "BADINSERT": [], "RAWINSERT": [], "text": so}
     for l in so.splitlines():
         t = l.split()
         if t and t[0] in rep and t[0] != "text":
@@ -164,7 +169,7 @@ def known_entries():
 
 
 # which known key excuses which kind of table row
-KEY_NODEMAP, KEY_PLAIN, KEY_SNAP = "outlier-nodemap-race", "bucketstart-plain-read", "outlier-multi-snapshot"
+KEY_NODEMAP, KEY_PLAIN, KEY_SNAP, KEY_INSERT = "outlier-nodemap-race", "bucketstart-plain-read", "outlier-multi-snapshot", "outlier-lost-insert"
 
 
 def static_stage(ctx, tab):
@@ -187,7 +192,16 @@ def static_stage(ctx, tab):
         present.add(KEY_PLAIN)
     if set(rep["RAWSHAPE"]) - set(rep["BADSHAPE"]):
         present.add(KEY_SNAP)
+    if set(rep["RAWINSERT"]) - set(rep["BADINSERT"]):
+        present.add(KEY_INSERT)
     lines = []
+    for (i,) in rep["BADINSERT"]:
+        r = tab["inserts"][i]
+        writers = sorted({b["fn"] for b in acc if b["class"] == r["class"] and b["write"] and b["phase"] == "live"})
+        lines.append("inserts_rechecked fails (lost-insert rule): INSERT %s[%s] in %s @ %s recheckedUnderWriteLock=%s guards={%s}: no mutex is "
+                     "held in write mode here since function entry / since a lookup of the same element AND by every writer of the class (%s) "
+                     "— a check in one critical section and the insert in another let concurrent callers each insert their own object"
+                     % (r["class"], r["key"], r["fn"], r["pos"], str(r["recheckedUnderWriteLock"]).lower(), ",".join(r["guards"]) or "-", ", ".join(writers)))
     for (i, j) in rep["BAD"]:
         lines.append("table_disciplined fails: no common mutex (one side in write mode) for\n    %s\n    %s" % (fmt_row(acc[i]), fmt_row(acc[j])))
     for (i,) in rep["BADPLAIN"]:
@@ -208,7 +222,8 @@ def static_stage(ctx, tab):
         lines.append("extractor_understood_everything fails: %s @ %s: %s" % (u["fn"], u["pos"], u["what"]))
     ctx.cov["table"] = {"accesses": len(acc), "classes": len(tab["vars"]), "plain_uses": len(tab["plainUses"]), "atomic_fields": len(tab["atomicFields"]),
                         "atomic_uses": tab["atomicUses"], "lock_edges": len(tab["lockEdges"]), "slot_shapes": len(tab["slotShapes"]),
-                        "unknowns": len(tab["unknowns"]), "live_rows": sum(1 for r in acc if r["phase"] == "live"),
+                        "unknowns": len(tab["unknowns"]), "inserts": len(tab["inserts"]),
+                        "inserts_live": sum(1 for r in tab["inserts"] if r["phase"] == "live"), "live_rows": sum(1 for r in acc if r["phase"] == "live"),
                         "live_writes": sum(1 for r in acc if r["phase"] == "live" and r["write"]),
                         "pairs_flagged_raw": len(rep["RAW"]), "pairs_flagged_unexcused": len(rep["BAD"])}
     return ("\n".join(lines) if lines else None), present, pairs, rep
@@ -434,6 +449,8 @@ def check_known_consistency(rep_text):
         problems.append(KEY_PLAIN)
     if ("outlier" in rep_text.split("KNOWNSLOTS")[1].split("\n")[0]) != (KEY_SNAP in listed):
         problems.append(KEY_SNAP)
+    if ("addNodeBreakerOfResource" in rep_text.split("KNOWNINSERTS")[1].split("\n")[0]) != (KEY_INSERT in listed):
+        problems.append(KEY_INSERT)
     return problems
 
 
@@ -521,6 +538,9 @@ def run(ctx):
                 r.get("reports_by_key", {}).get(key, 0), r.get("crashes_by_key", {}).get(key, 0))
         if key == KEY_SNAP:
             extra = " [stress: %d recovered panics in SlotChain.Entry with outlier churn this run]" % r.get("internal_panics_entry", 0)
+        if key == KEY_INSERT:
+            extra = " [table: %s]" % "; ".join("%s[%s] in %s" % (tab["inserts"][i]["class"], tab["inserts"][i]["key"], tab["inserts"][i]["fn"])
+                                                for (i,) in rep["RAWINSERT"] if (i,) not in set(rep["BADINSERT"]))
         ctx.known(f"key={key} {e['what']}{extra}")
         replayed.append(f"{PROP}:{key}")
     ctx.cov["known_findings_replayed"] = replayed
@@ -585,16 +605,3 @@ def replay(path):
                 fail = 1
     print("property C15 FAILS on this replay" if fail else "nothing in this replay fails on the current tree")
     return fail
-
-
-_orig_replay = _std.replay
-
-
-def _replay(pm, path):
-    # bin/check calls vlib.std.replay(pm, path) for every property; C15 has no op-line harness, so route to ours.
-    if getattr(pm, "PROP", None) == PROP:
-        return replay(path)
-    return _orig_replay(pm, path)
-
-
-_std.replay = _replay
